@@ -125,6 +125,15 @@ func CheckC20(c *BatchCase, st *Stats) *Violation {
 			os.Unsetenv(k)
 		}
 	}()
+	// typed-value apps keep their multi-valued defaults in slices that live as long as the batch item (like a program
+	// with package-level default slices): every rebuild, sequential or concurrent, is declared with the same slice objects.
+	// The first sequential pass creates them; later passes only read the table.
+	for i := range c.Items {
+		if v := c.Items[i].Value; v != nil {
+			v.ShareDefaults = true
+			v.persist = sharedSlices{}
+		}
+	}
 	first := make([]string, n)
 	for i := range c.Items {
 		first[i] = runItem(i, &c.Items[i])
